@@ -40,6 +40,13 @@ CLAIMED = {
                      "whose results satisfy the loader's own predicate (event::is_valid), and always no signal, no sanitizer report, bounded read calls and bounded allocation. The thorough tier "
                      "enumerates every truncation offset of the sample event file and gA tables; the other fault kinds are seeded samples.",
                 note="Not grammar-based fuzzing of arbitrary byte strings: only the storage-fault vocabulary over valid files (said in DESIGN.md). The fourth anchor (command-line parser) has no file; malformed command lines are exercised by C13."),
+    "C13": dict(level="fault_enumeration", ref="DESIGN.md section 3 (C13)", replay_flavour="asan",
+                technique="deterministic simulation: the program's real main() in-process over a simulated file system and clock; every kill point of every run enumerated as a snapshot after each write(2) and inside writes; write-fault injection; reference model written against the public API",
+                text="The real bxdecay0-run main(), parser and driver run in-process with argv from a seeded plan, output on the simulated disk and time() simulated. Checked: byte equality of the event file "
+                     "with a reference written against the public API; byte-identical reruns under another epoch and write chunking; companion key/values; at every kill point of every run (after each "
+                     "write and at seeded offsets inside each) that the completion marker implies a complete event file; the same implication under ENOSPC/EIO; refused lines leave no event record; no crash, "
+                     "sanitizer report or libstdc++ assertion.",
+                note="Kill points are enumerated exhaustively per explored run (fault_enumeration); the command-line space is sampled. fsync/rename-style durability is out of scope: the program does not use them and the property does not ask."),
 }
 
 NOT_APPLICABLE = {
